@@ -5,9 +5,33 @@
    quantify over all such histories.  Model.v mirrors lib/coroutine.nelua and the C functions
    of lib/detail/minicoro.nelua. *)
 From Coq Require Import List Arith ZArith Bool String.
-From C18 Require Import Gen Model ProofsStorage ProofsInv ProofsErr ProofsTrans ProofsFuel ProofsValues ProofsReg ProofsFrame ProofsOps Proofs.
+From C18 Require Import Gen Model Spec ProofsStorage ProofsInv ProofsErr ProofsTrans ProofsFuel ProofsValues ProofsReg ProofsFrame ProofsOps ProofsSpec Proofs.
 Import ListNotations.
 Local Open Scope list_scope.
+
+(* REFINEMENT.  Spec.v is the documented semantics as an abstract machine written from the documentation (a STACK
+   of active resumes: top = running, below = normal; a suspended/dead flag and a LIFO byte storage per coroutine;
+   one step per library call returning the documented result).  [absS] maps a model state to a spec state (prev chain
+   -> stack, byte buffer + bytes_stored -> stored bytes, state field -> flag).  After ANY history, ANY command does
+   to the abstraction of the model state exactly what the spec does, and prints exactly the same lines (results,
+   error strings, statuses, popped values).  The only place where the spec itself is "what the code does" is the
+   documented multi-value coroutine.pop ("the values may not be set": what was popped stays popped). *)
+Theorem C18_refines_spec : forall gc ops o,
+  spec_step o (absS (reach gc ops)) = (absS (fst (step o (reach gc ops))), snd (step o (reach gc ops))).
+Proof. exact refines_spec_step. Qed.
+Print Assumptions C18_refines_spec.
+
+(* hence over whole histories: same abstract state, same transcript *)
+Theorem C18_refines_spec_history : forall gc ops,
+  absS (reach gc ops) = spec_reach gc ops /\ snd (run ops (init gc)) = snd (spec_run ops (spec_init gc)).
+Proof. exact refines_spec_history. Qed.
+Print Assumptions C18_refines_spec_history.
+
+(* the status string of every handle is the one the reference semantics prescribes *)
+Theorem C18_status_agrees_with_spec : forall gc ops k,
+  co_status k (reach gc ops) = spec_status k (spec_reach gc ops).
+Proof. exact status_agrees_with_spec_all. Qed.
+Print Assumptions C18_status_agrees_with_spec.
 
 (* at most one coroutine is Running, and it is the current one *)
 Theorem C18_one_running : forall gc ops k c, get k (cos (reach gc ops)) = Some c ->
